@@ -6,15 +6,21 @@
 (* linearization point is the return of the call, error path included).    *)
 (* The abstract state is                                                   *)
 (*   objs    : sequence of estimator objects, each                         *)
-(*               [params, model, nfeat, thr]                               *)
+(*               [params, model, nfeat, thr, prep]                         *)
 (*             params : the constructor-parameter setting (a token)        *)
 (*             model  : <<>> (unfitted) or the TERM <<p, d>> = "what       *)
 (*                      fitting an estimator with parameters p on data d   *)
 (*                      learns" (components_ and the fit-time threshold)   *)
 (*             nfeat  : n_features_in_ (0 = absent)                        *)
 (*             thr    : <<>> | <<"fit", p, d>> | <<"set", t>> |            *)
-(*                      <<"cal", p, d, v, s>>  (threshold_ of pair         *)
-(*                      classifiers: who set it last and from what)        *)
+(*                      <<"cal", p, d, v, s, pc>>  (threshold_ of pair     *)
+(*                      classifiers: who set it last and from what; pc =   *)
+(*                      the parameters in force when calibrating, which    *)
+(*                      give indices in the validation set their meaning)  *)
+(*             prep   : the parameter setting whose preprocessor is in     *)
+(*                      force (0 = none): parameters take effect when the  *)
+(*                      inputs are next prepared, i.e. at fit and at       *)
+(*                      calibrate_threshold - not at set_params            *)
 (*   handles : objects handed out earlier (get_metric closures and         *)
 (*             get_mahalanobis_matrix results), each with the model term   *)
 (*             it captured; immutable for ever                             *)
@@ -52,7 +58,7 @@ vars == <<objs, handles, last>>
 NoModel == <<>>
 NoThr   == <<>>
 
-Obj(p)  == [params |-> p, model |-> NoModel, nfeat |-> 0, thr |-> NoThr]
+Obj(p)  == [params |-> p, model |-> NoModel, nfeat |-> 0, thr |-> NoThr, prep |-> 0]
 
 Init == objs = <<>> /\ handles = <<>> /\ last = <<"init">>
 
@@ -84,7 +90,8 @@ Fit(o, d) ==
   LET p == objs[o].params IN
   /\ objs' = [objs EXCEPT ![o].model = <<p, d>>,
                           ![o].nfeat = Dim(d),
-                          ![o].thr = IF HasThreshold THEN <<"fit", p, d>> ELSE NoThr]
+                          ![o].thr = IF HasThreshold THEN <<"fit", p, d>> ELSE NoThr,
+                          ![o].prep = p]
   /\ last' = <<"Fit", o, d, <<p, d>>>>
   /\ UNCHANGED handles
 
@@ -98,14 +105,15 @@ SetThreshold(o, t) ==
 Calibrate(o, v, s) ==
   /\ HasThreshold
   /\ IF Fitted(o)
-     THEN objs' = [objs EXCEPT ![o].thr = <<"cal", objs[o].model[1], objs[o].model[2], v, s>>]
+     THEN objs' = [objs EXCEPT ![o].thr = <<"cal", objs[o].model[1], objs[o].model[2], v, s, objs[o].params>>,
+                               ![o].prep = objs[o].params]
           /\ last' = <<"Calibrate", o, v, s>>
      ELSE UNCHANGED objs /\ last' = <<"NotFitted", o, "Calibrate", v, s>>
   /\ UNCHANGED handles
 
 (* every query: no state change; the result is a function of (model term, thr term, query) *)
 Query(o, q) ==
-  /\ last' = IF Fitted(o) THEN <<"Query", o, q, objs[o].model, objs[o].thr>> ELSE <<"NotFitted", o, "Query", q>>
+  /\ last' = IF Fitted(o) THEN <<"Query", o, q, objs[o].model, objs[o].thr, objs[o].prep>> ELSE <<"NotFitted", o, "Query", q>>
   /\ UNCHANGED <<objs, handles>>
 
 GetMetric(o) ==
@@ -162,6 +170,8 @@ TypeOK ==
 
 (* n_features_in_ is that of the data of the LAST fit *)
 NfeatOfLastFit == \A o \in Live : IF Fitted(o) THEN objs[o].nfeat = Dim(objs[o].model[2]) ELSE objs[o].nfeat = 0
+(* the preprocessor in force is that of the parameters at the last fit / calibrate *)
+PrepOnlyWhenFitted == \A o \in Live : (objs[o].prep # 0) <=> Fitted(o)
 (* an unfitted object has no threshold; without the pairs mixin there is never one *)
 ThresholdNeedsFit == \A o \in Live : (objs[o].thr # NoThr) => (Fitted(o) /\ HasThreshold)
 (* the fit-time threshold belongs to the current model unless set_threshold / calibrate came later *)
@@ -176,6 +186,10 @@ OnlyThreeActionsChangeThreshold ==
   [][\A o \in Live : objs'[o].thr # objs[o].thr
         => \/ \E d \in Data : Fit(o, d)
            \/ \E t \in Thresholds : SetThreshold(o, t)
+           \/ \E v \in ValSets : \E s \in Strategies : Calibrate(o, v, s)]_vars
+OnlyFitAndCalibrateChangePreprocessorInForce ==
+  [][\A o \in Live : objs'[o].prep # objs[o].prep
+        => \/ \E d \in Data : Fit(o, d)
            \/ \E v \in ValSets : \E s \in Strategies : Calibrate(o, v, s)]_vars
 OnlySetParamsChangesParams ==
   [][\A o \in Live : objs'[o].params # objs[o].params => \E p \in Params : SetParams(o, p)]_vars
